@@ -71,13 +71,15 @@ func (s *copyService) Handle(ctx context.Context, conn net.Conn) error {
 
 		defer conn2.Close()
 
-		go io.Copy(conn2, conn)
+		// one read is one datagram: the buffer has to hold the largest one (io.Copy's own 32 KiB
+		// buffer cuts larger datagrams)
+		go io.CopyBuffer(conn2, conn, make([]byte, 65535))
 
 		// a datagram has no end of stream to wait for: relay the backend's replies until
 		// none has come for a while
 		conn2.SetReadDeadline(time.Now().Add(30 * time.Second))
 
-		_, err = io.Copy(conn, conn2)
+		_, err = io.CopyBuffer(conn, conn2, make([]byte, 65535))
 
 		return err
 	case "tcp":
